@@ -9,7 +9,7 @@ import re
 
 import inline
 import seqmodel
-from core import AbsPaths, VALUE_EQ, STR_EQ, INT_CMP, norm, deref_value
+from core import AbsPaths, VALUE_EQ, STR_EQ, INT_CMP, norm, deref_value, http_version, VERSION_CMP
 from seqmodel import NONE, some, tup, _arg, _deref, _set_dest
 
 FN = "service::http::http1::check_http1_request"
@@ -153,7 +153,7 @@ def evaluate(facts, version, method, u0):
         if norm(site.name).endswith("::ne"):
             eq = not eq
         return _set_dest(st, t, ("const", "true" if eq else "false"))
-    raw = [(r"ExecuteRequest.*::connection$", const("CONN")), (r"Connection.*::version$", const("http::Version::" + version)),
+    raw = [(r"ExecuteRequest.*::connection$", const("CONN")), (r"Connection.*::version$", lambda ev, st, t, site: _set_dest(st, t, http_version(version))), VERSION_CMP,
            (r"ExecuteRequest.*::(request|request_mut)$", const("REQ")), (r"Request.*::method$", const("http::Method::" + method)),
            (r"Request.*::uri_mut$", o_uri_mut), (r"Request.*::uri$", o_uri),
            (r"Uri::scheme$", getter(0)), (r"Uri::authority$", getter(1)), (r"Uri::path_and_query$", getter(2)),
